@@ -300,6 +300,8 @@ def file_case(case, ctx):
         N = 1 if i % 17 == 16 else int(rng.integers(2, 201))
         n = 1 if i % 9 == 8 else int(rng.integers(2, 9))
         alphabet = list("XYZ") + (["H", "K"] if rng.random() < 0.3 else [])
+        if i % 4 == 2:
+            alphabet += ["Xr", "Zt", "had"]  # dictionary keys are arbitrary strings: labels longer than one character
         alphabet = [a for a in alphabet if rng.random() < 0.8] or ["Z"]
         if "Z" not in alphabet:
             alphabet.append("Z")
